@@ -1,2 +1,3 @@
 /- C02 — complex identity under rotation, minimal canonical form: theorems are in Props/C02Canon.lean. -/
 import DsdVerif.Props.C02Canon
+import DsdVerif.Props.C02Full
